@@ -19,7 +19,7 @@ def generic_replay(prop, rp):
         print("not reproduced")
         return 0
     if key.startswith("prog:"):
-        text = key[5:]
+        text = key[5:].split(" #hyb=")[0]
         c = corpus.compile_stmt(text, rp["extra"].get("fmt", "READ_STATEMENTS"), rp["extra"].get("hyb"))
         if c[0] != "ok":
             print("compiler rejects:", c[1])
